@@ -232,3 +232,231 @@ pub fn decode_steps(t: &mut Tape<'_>, prog: &Program, h: &HistCfg) -> Vec<Step> 
     }
     steps
 }
+
+// ---------------------------------------------------------------------------
+// Structured (JSON) form of a case: replay files stay valid when the byte
+// decoder / generator changes.
+// ---------------------------------------------------------------------------
+
+use serde_json::{Value, json};
+
+use crate::prog::{Expr, Node};
+
+fn pairs_to_json(ts: &[(u32, u8)]) -> Value {
+    Value::Array(ts.iter().map(|(n, s)| json!([n, s])).collect())
+}
+
+fn pairs_from_json(v: &Value) -> Vec<(u32, u8)> {
+    v.as_array()
+        .map(|a| {
+            a.iter()
+                .map(|p| {
+                    (p[0].as_u64().unwrap_or(0) as u32, p[1].as_u64().unwrap_or(0) as u8)
+                })
+                .collect()
+        })
+        .unwrap_or_default()
+}
+
+pub fn expr_to_json(e: &Expr) -> Value {
+    match e {
+        Expr::Const(c) => json!({ "c": c }),
+        Expr::Read(n, s) => json!({ "r": [n, s] }),
+        Expr::Add(a, b) => json!({ "add": [expr_to_json(a), expr_to_json(b)] }),
+        Expr::Mul(a, b) => json!({ "mul": [expr_to_json(a), expr_to_json(b)] }),
+        Expr::Min(a, b) => json!({ "min": [expr_to_json(a), expr_to_json(b)] }),
+        Expr::Mod(a, m) => json!({ "mod": [expr_to_json(a), m] }),
+        Expr::If(c, a, b) => {
+            json!({ "if": [expr_to_json(c), expr_to_json(a), expr_to_json(b)] })
+        }
+        Expr::Dyn(s, ts) => json!({ "dyn": [expr_to_json(s), pairs_to_json(ts)] }),
+        Expr::Par(cs) => {
+            json!({ "par": cs.iter().map(expr_to_json).collect::<Vec<_>>() })
+        }
+        Expr::Unord(ts) => json!({ "unord": pairs_to_json(ts) }),
+        Expr::Spawned(ts) => json!({ "spawned": pairs_to_json(ts) }),
+        Expr::Detached(n, s) => json!({ "detached": [n, s] }),
+    }
+}
+
+pub fn expr_from_json(v: &Value) -> Expr {
+    let o = v.as_object().expect("expr object");
+    let (k, x) = o.iter().next().expect("expr key");
+    let b = |i: usize| Box::new(expr_from_json(&x[i]));
+    match k.as_str() {
+        "c" => Expr::Const(x.as_i64().unwrap()),
+        "r" => Expr::Read(x[0].as_u64().unwrap() as u32, x[1].as_u64().unwrap() as u8),
+        "add" => Expr::Add(b(0), b(1)),
+        "mul" => Expr::Mul(b(0), b(1)),
+        "min" => Expr::Min(b(0), b(1)),
+        "mod" => Expr::Mod(b(0), x[1].as_i64().unwrap()),
+        "if" => Expr::If(b(0), b(1), b(2)),
+        "dyn" => Expr::Dyn(b(0), pairs_from_json(&x[1])),
+        "par" => Expr::Par(x.as_array().unwrap().iter().map(expr_from_json).collect()),
+        "unord" => Expr::Unord(pairs_from_json(x)),
+        "spawned" => Expr::Spawned(pairs_from_json(x)),
+        "detached" => {
+            Expr::Detached(x[0].as_u64().unwrap() as u32, x[1].as_u64().unwrap() as u8)
+        }
+        other => panic!("unknown expr key {other}"),
+    }
+}
+
+fn kind_from(s: &str) -> Kind {
+    match s {
+        "In" => Kind::In,
+        "Xt" => Kind::Xt,
+        "Nq" => Kind::Nq,
+        "Fw" => Kind::Fw,
+        "Pj" => Kind::Pj,
+        "Cy" => Kind::Cy,
+        "CyF" => Kind::CyF,
+        o => panic!("unknown kind {o}"),
+    }
+}
+
+pub fn program_to_json(p: &Program) -> Value {
+    Value::Array(
+        p.nodes
+            .iter()
+            .map(|n| {
+                json!({
+                    "k": n.kind.tag(),
+                    "slots": n.slots.iter().map(expr_to_json).collect::<Vec<_>>(),
+                    "default": n.default,
+                })
+            })
+            .collect(),
+    )
+}
+
+pub fn program_from_json(v: &Value) -> Program {
+    Program {
+        nodes: v
+            .as_array()
+            .expect("program array")
+            .iter()
+            .map(|n| Node {
+                kind: kind_from(n["k"].as_str().unwrap()),
+                slots: n["slots"]
+                    .as_array()
+                    .unwrap()
+                    .iter()
+                    .map(expr_from_json)
+                    .collect(),
+                default: n["default"]
+                    .as_array()
+                    .unwrap()
+                    .iter()
+                    .map(|x| x.as_i64().unwrap())
+                    .collect(),
+            })
+            .collect(),
+    }
+}
+
+fn ints(v: &Value) -> Vec<i64> {
+    v.as_array().unwrap().iter().map(|x| x.as_i64().unwrap()).collect()
+}
+
+pub fn step_to_json(s: &Step) -> Value {
+    match s {
+        Step::Session { ops, by_drop } => json!({
+            "session": {
+                "drop": by_drop,
+                "ops": ops.iter().map(|o| match o {
+                    SessOp::Set(n, v) => json!({"set": [n, v]}),
+                    SessOp::SetSame(n) => json!({"same": n}),
+                    SessOp::Update(n, d) => json!({"update": [n, d]}),
+                    SessOp::Refresh => json!("refresh"),
+                }).collect::<Vec<_>>()
+            }
+        }),
+        Step::World(n, v) => json!({ "world": [n, v] }),
+        Step::Query(n) => json!({ "query": n }),
+        Step::QueryMany { nodes, separate } => {
+            json!({ "many": { "nodes": nodes, "separate": separate } })
+        }
+        Step::RepairTfc(n) => json!({ "repair_tfc": n }),
+        Step::NewTracked => json!("new_tracked"),
+        Step::Restart => json!("restart"),
+        Step::Release(k) => json!({ "release": k }),
+    }
+}
+
+pub fn step_from_json(v: &Value) -> Step {
+    if let Some(s) = v.as_str() {
+        return match s {
+            "new_tracked" => Step::NewTracked,
+            "restart" => Step::Restart,
+            o => panic!("unknown step {o}"),
+        };
+    }
+    let o = v.as_object().unwrap();
+    let (k, x) = o.iter().next().unwrap();
+    match k.as_str() {
+        "session" => Step::Session {
+            by_drop: x["drop"].as_bool().unwrap_or(false),
+            ops: x["ops"]
+                .as_array()
+                .unwrap()
+                .iter()
+                .map(|o| {
+                    if o.as_str() == Some("refresh") {
+                        return SessOp::Refresh;
+                    }
+                    let (k, x) = o.as_object().unwrap().iter().next().unwrap();
+                    match k.as_str() {
+                        "set" => SessOp::Set(x[0].as_u64().unwrap() as u32, ints(&x[1])),
+                        "same" => SessOp::SetSame(x.as_u64().unwrap() as u32),
+                        "update" => SessOp::Update(
+                            x[0].as_u64().unwrap() as u32,
+                            x[1].as_i64().unwrap(),
+                        ),
+                        o => panic!("unknown session op {o}"),
+                    }
+                })
+                .collect(),
+        },
+        "world" => Step::World(x[0].as_u64().unwrap() as u32, ints(&x[1])),
+        "query" => Step::Query(x.as_u64().unwrap() as u32),
+        "many" => Step::QueryMany {
+            nodes: x["nodes"]
+                .as_array()
+                .unwrap()
+                .iter()
+                .map(|n| n.as_u64().unwrap() as u32)
+                .collect(),
+            separate: x["separate"].as_bool().unwrap_or(false),
+        },
+        "repair_tfc" => Step::RepairTfc(x.as_u64().unwrap() as u32),
+        "release" => Step::Release(x.as_u64().unwrap() as u8),
+        o => panic!("unknown step {o}"),
+    }
+}
+
+impl Case {
+    #[must_use]
+    pub fn to_json(&self) -> Value {
+        json!({
+            "knobs": self.knobs,
+            "program": program_to_json(&self.prog),
+            "steps": self.steps.iter().map(step_to_json).collect::<Vec<_>>(),
+        })
+    }
+
+    #[must_use]
+    pub fn from_json(v: &Value) -> Self {
+        let k = v["knobs"].as_array().unwrap();
+        Self {
+            knobs: [
+                k[0].as_u64().unwrap() as u8,
+                k[1].as_u64().unwrap() as u8,
+                k[2].as_u64().unwrap() as u8,
+                k[3].as_u64().unwrap() as u8,
+            ],
+            prog: program_from_json(&v["program"]),
+            steps: v["steps"].as_array().unwrap().iter().map(step_from_json).collect(),
+        }
+    }
+}
